@@ -110,6 +110,10 @@ class Instrument:
             me.in_to_type += 1
             try:
                 r = o["to_type"](stype, types)
+            except Exception as e:
+                if fr is not None and fr["kind"] == "find":
+                    fr["to_type_exc"] = type(e).__name__      # e.g. no plain type to instantiate with
+                raise
             finally:
                 me.in_to_type -= 1
             if fr is not None and fr["kind"] == "find":
@@ -274,8 +278,8 @@ def requests_of_find(fr, boxes):
     if pre is not None:
         rq["expect"] = [tt.add(t) for t in pre]
     rq["tt"] = tt.entries
-    if "related_exc" not in fr:
-        # (an exception inside the randomised `_construct_related_types` is outside the model: counted)
+    if "related_exc" not in fr and "to_type_exc" not in fr:
+        # (an exception inside the randomised `_construct_related_types` / `to_type` is outside the model: counted)
         out.append((rq, impl, {"what": "exact", "frame": fr}))
     if "result" in fr and fr["depth"] == 0:
         tt2 = export.TypeTable()
@@ -566,6 +570,26 @@ def subtype_shape(fr, r):
         ps0 = list(e.t_constructor.type_parameters)
         if not any(p.bound is not None and p.bound.has_type_variables() for p in ps0):
             return "%s/related/samecon/%s" % ("sub" if fr["get_subtypes"] else "super", "+".join(moves) or "none")
+        # the recorded finding `bound-mentions-parameter` is about the parameters that take part in a dependency
+        # (the bound of one mentions another): an offending position at an INDEPENDENT parameter of such a class
+        # is a different violation and keeps the ordinary signature
+        def mentions(t, q):
+            if t is None:
+                return False
+            if kind(t) == "v":
+                return t == q or mentions(t.bound, q)
+            if kind(t) == "p":
+                return any(mentions(a, q) for a in t.type_args)
+            if kind(t) == "w":
+                return mentions(t.bound, q)
+            return False
+        involved = [p for p in ps0 if (p.bound is not None and p.bound.has_type_variables())
+                    or any(q is not p and mentions(q.bound, p) for q in ps0)]
+        indep = [(p, a, b) for p, a, b in zip(ps0, e.type_args, r.type_args)
+                 if not (a == b) and offending(p, a, b) and not any(p is q for q in involved)]
+        if indep:
+            moves2 = sorted({"%s-to-%s" % (argkind(a), argkind(b)) + qualifier(a, b) for p, a, b in indep})
+            return "%s/related/samecon/%s" % ("sub" if fr["get_subtypes"] else "super", "+".join(moves2))
     if kind(e) == "p":
         ps = list(e.t_constructor.type_parameters)
         if any(p.bound is not None and p.bound.has_type_variables() for p in ps):
